@@ -1,12 +1,185 @@
 // Contract harnesses for statime-csptp/src/server.rs (child module: sees private items).
+// Property C45: the real `handle_packet` (async fn) is executed by polling its future by hand
+// with a mock ServerSocket whose operations complete immediately; the mock records every datagram
+// handed to send_event / send_general (the property's observation points).
+// Bound: received datagram <= 56 bytes (see messages.rs); real buffer is 512.
 #![allow(unused_imports)]
 use super::*;
+use crate::{CsptpConfig, InternalState};
+use core::cell::RefCell;
+use core::future::Future;
+use core::pin::Pin;
+use core::task::{Context, Waker};
+
+fn any_ts() -> Timestamp {
+    let s: u64 = kani::any();
+    let n: u32 = kani::any();
+    kani::assume(s < (1 << 48) && n < 1_000_000_000);
+    Timestamp::new(s, n).unwrap()
+}
+
+struct Ready<T>(Option<T>);
+impl<T: Unpin> Future for Ready<T> {
+    type Output = T;
+    fn poll(mut self: Pin<&mut Self>, _cx: &mut Context<'_>) -> Poll<T> {
+        Poll::Ready(self.0.take().unwrap())
+    }
+}
+
+const OUT: usize = 96;
+
+struct RecSocket {
+    send_ts: Result<Timestamp, ()>,
+    events: u8,
+    generals: u8,
+    order_ok: bool,
+    event: [u8; OUT],
+    event_len: usize,
+    event_from: u8,
+    event_to: u8,
+    general: [u8; OUT],
+    general_len: usize,
+    general_from: u8,
+    general_to: u8,
+}
+
+impl ServerSocket for RecSocket {
+    type Addr = u8;
+    type Error = ();
+    fn recv(&mut self, _buf: &mut [u8]) -> impl Future<Output = Result<ServerRecvResult<u8>, ()>> {
+        Ready(Some(Err(())))
+    }
+    fn send_event(&mut self, buf: &[u8], from: u8, to: u8) -> impl Future<Output = Result<Timestamp, ()>> {
+        self.events += 1;
+        if self.generals != 0 {
+            self.order_ok = false;
+        }
+        self.event_len = buf.len();
+        if buf.len() <= OUT {
+            self.event[..buf.len()].copy_from_slice(buf);
+        }
+        self.event_from = from;
+        self.event_to = to;
+        Ready(Some(self.send_ts))
+    }
+    fn send_general(&mut self, buf: &[u8], from: u8, to: u8) -> impl Future<Output = Result<(), ()>> {
+        self.generals += 1;
+        self.general_len = buf.len();
+        if buf.len() <= OUT {
+            self.general[..buf.len()].copy_from_slice(buf);
+        }
+        self.general_from = from;
+        self.general_to = to;
+        Ready(Some(Ok(())))
+    }
+}
+
+fn new_socket(send_ts: Result<Timestamp, ()>) -> RecSocket {
+    RecSocket {
+        send_ts,
+        events: 0,
+        generals: 0,
+        order_ok: true,
+        event: [0; OUT],
+        event_len: 0,
+        event_from: 0,
+        event_to: 0,
+        general: [0; OUT],
+        general_len: 0,
+        general_from: 0,
+        general_to: 0,
+    }
+}
+
+/// STATEMENT on the real handle_packet, every datagram of <= N bytes, every receive timestamp,
+/// every outcome of the event send:
+/// - at most one event datagram and at most one general datagram are sent, the general one only
+///   after a successful event send;
+/// - nothing is sent unless the datagram parses as a CSPTP message and is a request
+///   (Sync + CSPTP request TLV, sdoId 0x300, versionPTP 2);
+/// - the event datagram (the answer) goes local -> remote and carries the request's domain and
+///   sequence id, the request's reception time and correction field in a CSPTP response TLV, and
+///   the two-step flag;
+/// - the general datagram is a FollowUp with the same ids carrying exactly the timestamp returned
+///   by send_event (the actual send time of the answer).
+fn handle_packet_contract<const N: usize>() {
+    let manager = CsptpManager::<RefCell<InternalState>>::new(CsptpConfig::default());
+    let d: [u8; N] = kani::any();
+    let len: usize = kani::any();
+    kani::assume(len <= N);
+    let recv_ts = any_ts();
+    let send_ts: Result<Timestamp, ()> = if kani::any() { Ok(any_ts()) } else { Err(()) };
+    let mut sock = new_socket(send_ts);
+    let remote: u8 = kani::any();
+    let local: u8 = kani::any();
+    {
+        let mut fut = core::pin::pin!(handle_packet(&mut sock, &manager, &d[..len], remote, local, recv_ts));
+        let mut cx = Context::from_waker(Waker::noop());
+        let r = fut.as_mut().poll(&mut cx);
+        assert!(r.is_ready()); // no hidden waiting: every path completes once the socket does
+    }
+    assert!(sock.events <= 1 && sock.generals <= 1 && sock.order_ok);
+    assert!(sock.generals == 0 || (sock.events == 1 && send_ts.is_ok()));
+    let is_req = match CsptpMessage::deserialize(&d[..len]) {
+        Ok(m) => m.is_request(),
+        Err(_) => false,
+    };
+    if sock.events == 0 {
+        // the only reason not to answer is that it was not a request (128-byte scratch and
+        // 512-byte send buffers always suffice)
+        let request_left_unanswered = is_req;
+        assert!(!request_left_unanswered);
+    } else {
+        assert!(is_req);
+        assert!(d[0] == 0x30 && d[5] == 0 && d[1] & 0xf == 2 && len >= 52);
+        let e = &sock.event;
+        assert!(sock.event_len == 66 || sock.event_len == 88);
+        assert!(sock.event_from == local && sock.event_to == remote);
+        assert!(e[0] == 0x30 && e[5] == 0 && e[1] == 0x12);
+        assert!(u16::from_be_bytes([e[2], e[3]]) as usize == sock.event_len);
+        assert!(e[4] == d[4] && e[30] == d[30] && e[31] == d[31]);
+        assert!(e[6] & 2 == 2);
+        assert!(e[44] == 0xff && e[45] == 0x01 && e[46] == 0 && e[47] == 18);
+        let mut rt = [0u8; 10];
+        recv_ts.serialize(&mut rt).unwrap();
+        let i: usize = kani::any();
+        kani::assume(i < 10);
+        assert!(e[48 + i] == rt[i]);
+        let j: usize = kani::any();
+        kani::assume(j < 8);
+        assert!(e[58 + j] == d[8 + j]);
+        if let Ok(st) = send_ts {
+            assert!(sock.generals == 1);
+            let g = &sock.general;
+            assert!(sock.general_len == 44);
+            assert!(sock.general_from == local && sock.general_to == remote);
+            assert!(g[0] == 0x38 && g[5] == 0 && g[1] == 0x12 && g[2] == 0 && g[3] == 44);
+            assert!(g[4] == d[4] && g[30] == d[30] && g[31] == d[31]);
+            let mut sb = [0u8; 10];
+            st.serialize(&mut sb).unwrap();
+            assert!(g[34 + i] == sb[i]);
+        }
+    }
+    kani::cover!(sock.events == 1 && sock.generals == 1, "request answered with response and follow-up");
+    kani::cover!(sock.events == 1 && sock.generals == 0, "event send failed: no follow-up");
+    kani::cover!(sock.events == 0 && len == N, "full-size non-request ignored");
+    kani::cover!(sock.event_len == 88, "status TLV included");
+}
+
+#[kani::proof]
+#[kani::unwind(8)]
+fn c45_tb_handle_packet_56() {
+    handle_packet_contract::<56>();
+}
+
+#[kani::proof]
+#[kani::unwind(12)]
+fn c45_tb_handle_packet_72() {
+    handle_packet_contract::<72>();
+}
 
 #[cfg(all(kani, test))]
 mod replay {
-    extern crate std;
-    #[allow(unused_imports)]
-    use std::{vec, vec::Vec};
     use super::*;
     include!(concat!(env!("VERIF_REPLAY_DIR"), "/statime_csptp__server.rs"));
 }
